@@ -20,9 +20,12 @@ static FAKE_NS: AtomicI64 = AtomicI64::new(0);
 static FAKE_S: AtomicI64 = AtomicI64::new(T0_SECS);
 
 static GATE_ON: AtomicBool = AtomicBool::new(false);
-static SLEEP_REQUESTS: AtomicUsize = AtomicUsize::new(0);
-static SLEEP_PERMITS: AtomicUsize = AtomicUsize::new(0);
-static SLEEP_LOG: Mutex<Vec<(i64, i64)>> = Mutex::new(Vec::new());
+/// tickets are global and monotonic: a sleeper parked in an earlier run can never be woken by a later one
+static NEXT_TICKET: AtomicUsize = AtomicUsize::new(0);
+static RELEASED: AtomicUsize = AtomicUsize::new(0);
+static SLEEP_LOG: Mutex<Vec<(usize, i64, i64)>> = Mutex::new(Vec::new());
+static GATE_MX: Mutex<()> = Mutex::new(());
+static GATE_CV: std::sync::Condvar = std::sync::Condvar::new();
 
 pub fn freeze_clock() {
     FAKE_S.store(T0_SECS, SeqCst);
@@ -37,28 +40,30 @@ pub fn set_clock(secs: i64, ns: i64) {
 }
 
 pub fn arm_sleep_gate() {
-    SLEEP_REQUESTS.store(0, SeqCst);
-    SLEEP_PERMITS.store(0, SeqCst);
-    SLEEP_LOG.lock().unwrap().clear();
     GATE_ON.store(true, SeqCst);
 }
 
+/// new sleeps are real again; sleepers already parked stay parked (their reader threads are leaked on purpose:
+/// the TCP reader loop of the code under test never returns)
 pub fn disarm_sleep_gate() {
     GATE_ON.store(false, SeqCst);
-    // release anything still parked
-    SLEEP_PERMITS.store(usize::MAX / 2, SeqCst);
 }
 
+/// number of gated sleep requests so far in this process (monotonic)
 pub fn sleep_requests() -> usize {
-    SLEEP_REQUESTS.load(SeqCst)
+    NEXT_TICKET.load(SeqCst)
 }
 
-pub fn sleep_log() -> Vec<(i64, i64)> {
-    SLEEP_LOG.lock().unwrap().clone()
+/// (ticket, seconds, nanoseconds) of every gated sleep request with ticket > `after`
+pub fn sleep_log_after(after: usize) -> Vec<(usize, i64, i64)> {
+    SLEEP_LOG.lock().unwrap().iter().filter(|x| x.0 > after).cloned().collect()
 }
 
-pub fn release_one_sleep() {
-    SLEEP_PERMITS.fetch_add(1, SeqCst);
+/// let the most recent sleeper return
+pub fn release_latest_sleep() {
+    let _g = GATE_MX.lock().unwrap();
+    RELEASED.store(NEXT_TICKET.load(SeqCst), SeqCst);
+    GATE_CV.notify_all();
 }
 
 /// real sleeping for harness code (never gated, never faked)
@@ -93,19 +98,20 @@ fn gated_sleep(req: *const libc::timespec) -> bool {
         return false;
     }
     let (s, ns) = unsafe { ((*req).tv_sec as i64, (*req).tv_nsec as i64) };
-    // tiny sleeps (harness internals, spin helpers) are not application pauses
+    // tiny sleeps (harness internals) are not application pauses
     if s == 0 && ns < 50_000_000 {
         return false;
     }
+    let mut g = GATE_MX.lock().unwrap();
+    let ticket = NEXT_TICKET.fetch_add(1, SeqCst) + 1;
     if let Ok(mut l) = SLEEP_LOG.lock() {
-        l.push((s, ns));
+        l.push((ticket, s, ns));
     }
-    let ticket = SLEEP_REQUESTS.fetch_add(1, SeqCst);
     loop {
-        if SLEEP_PERMITS.load(SeqCst) > ticket {
+        if RELEASED.load(SeqCst) == ticket {
             return true;
         }
-        real_sleep_us(200);
+        g = GATE_CV.wait(g).unwrap();
     }
 }
 
@@ -152,16 +158,22 @@ pub fn self_test() -> Result<(), String> {
     if a.elapsed().as_micros() < 500 {
         return Err("Instant does not advance".into());
     }
-    // gated sleep: a 1 h sleep must return as soon as a permit is given
+    // gated sleep: a 1 h sleep must park, be logged, and return as soon as it is released
     arm_sleep_gate();
-    release_one_sleep();
+    let base = sleep_requests();
+    let h = std::thread::spawn(|| std::thread::sleep(std::time::Duration::from_secs(3600)));
     let t = std::time::Instant::now();
-    std::thread::sleep(std::time::Duration::from_secs(3600));
-    let el = t.elapsed();
-    let log = sleep_log();
+    while sleep_requests() == base && t.elapsed().as_secs() < 3 {
+        real_sleep_us(200);
+    }
+    let log = sleep_log_after(base);
+    release_latest_sleep();
+    while !h.is_finished() && t.elapsed().as_secs() < 3 {
+        real_sleep_us(200);
+    }
     disarm_sleep_gate();
-    if el.as_secs() > 2 || log != vec![(3600, 0)] {
-        return Err(format!("sleep interposition not effective: elapsed {el:?}, log {log:?}"));
+    if !h.is_finished() || log.len() != 1 || (log[0].1, log[0].2) != (3600, 0) {
+        return Err(format!("sleep interposition not effective: finished {}, log {log:?}", h.is_finished()));
     }
     Ok(())
 }
